@@ -85,9 +85,10 @@ func cmdEngineInner() {
 		ex.run()
 		obls = append(obls, ex.obls...)
 	}
-	work := filepath.Join(verifDir, "work", "engine-selftest")
+	work := filepath.Join(verifDir, "work", fmt.Sprintf("engine-selftest.%d", os.Getpid()))
 	_ = os.RemoveAll(work)
 	_ = os.MkdirAll(work, 0o755)
+	defer os.RemoveAll(work)
 	solveAll(obls, 10, false, work)
 	var exp struct {
 		MustFail []string `json:"must_fail"`
